@@ -296,3 +296,31 @@ Theorem C01_optional_defaults_in_order :
                     | _, _ => false end) [Slip; Ref; Chk] = true.
 Proof. exact optional_defaults_in_order. Qed.
 Print Assumptions C01_optional_defaults_in_order.
+
+(* zero values: every place that takes ONE value from a form (argument, test, or, setq, ... : arg_red / truthy / or_step;
+   binding a variable: store_red, in the reference evaluator) depends on the primary value only, a form that returns NO
+   value counts as nil there, an argument form without value contributes nil to the argument list; and 27 contexts, one
+   per single-value position of the language, evaluated with (values), (progn (values)) and a call returning no value
+   in the hole: same value(s) and trace as with nil in the hole, in the model of the Go code and in the reference
+   evaluator.  (The harness evaluates the same block, with eleven producers, against the interpreter on every run.) *)
+Theorem C01_single_value_primary : forall m v v', primary v = primary v' ->
+  arg_red m v = arg_red m v' /\ truthy m v = truthy m v' /\ or_step m v = or_step m v' /\ store_red Ref v = store_red Ref v'.
+Proof. exact single_value_primary. Qed.
+Print Assumptions C01_single_value_primary.
+Theorem C01_zero_values_as_nil : forall m,
+  arg_red m (VValues []) = Ok VNil /\ truthy m (VValues []) = Ok false /\ or_step m (VValues []) = Ok None /\
+  store_red Ref (VValues []) = Ok VNil.
+Proof. exact zero_values_as_nil. Qed.
+Print Assumptions C01_zero_values_as_nil.
+Theorem C01_zero_value_argument : forall m ev sc st e es st1 vs st2,
+  ev st sc e = (Ok (VValues []), st1) -> ev_args m ev st1 sc es = (Ok vs, st2) ->
+  ev_args m ev st sc (e :: es) = (Ok (VNil :: vs), st2).
+Proof. exact zero_value_argument. Qed.
+Print Assumptions C01_zero_value_argument.
+Theorem C01_zero_values_behave_as_nil :
+  forallb (fun m => forallb (fun c => same_obs (run m 80 [c (EValues [])]) (run m 80 [c ENil]) &&
+                                      same_obs (run m 80 [c (EProgn [EValues []])]) (run m 80 [c ENil]) &&
+                                      same_obs (run m 80 [c (EFuncall (ELambda [] [EValues []]) [])]) (run m 80 [c ENil]))
+                             sv_contexts) [Slip; Ref] = true.
+Proof. exact zero_values_behave_as_nil. Qed.
+Print Assumptions C01_zero_values_behave_as_nil.
